@@ -12,7 +12,9 @@ git -C /repo worktree add -q --detach $WT HEAD || exit 9
 cleanup() { git -C /repo worktree remove --force $WT 2>/dev/null; }
 trap cleanup EXIT
 PKG=$(grep -m1 '^package ' $SRC/${M}_demo_test.go | awk '{print $2}')
+if [ -n "${DEMO_DIR:-}" ]; then PKG=override; fi
 case "$PKG" in
+  override) DDIR=$DEMO_DIR ;;
   field|field_test) DDIR=internal/field ;;
   scalar|scalar_test) DDIR=internal/scalar ;;
   secp256k1) DDIR=. ;;
